@@ -442,6 +442,9 @@ def read_associate_def(line: str):
         if trailing_line[match_char + 1 :].lstrip().startswith(("=", "%")):
             return None
         var_words = separate_def_list(trailing_line[:match_char].strip())
+        if var_words is None:
+            # A list that starts with an empty item, e.g. `associate(, a => b)`
+            var_words = []
         return "assoc", var_words
 
 
